@@ -6,9 +6,11 @@ import (
 	"fmt"
 	"math/rand"
 	"strings"
+	"sync"
 	"sync/atomic"
 	"time"
 
+	"github.com/krotik/ecal/scope"
 	"github.com/krotik/ecal/verifhook"
 
 	"verif/harness/ev"
@@ -144,6 +146,72 @@ func C14(r *ev.Run) {
 	if len(recs) > 3 {
 		r.Sample(map[string]interface{}{"literal": recs[len(recs)/2].Src, "result": string(intsToBytes(recs[len(recs)/2].Out)), "ticks": recs[len(recs)/2].Ticks})
 	}
+	// the same literal node evaluated by several threads at once (sinks triggered together share their code): every
+	// evaluation gives the sequential result and runs each expression once
+	concRounds, concBad := 0, 0
+	for _, lit := range []string{"p{{a}}q{{verif.tick()}}r{{1+2}}", "{{verif.tick()}}{{verif.tick()}}", "x{{b}}y{{g}}z", "{{a}}{{a}}{{a}}{{verif.tick()}}"} {
+		src := setup.String() + "res := " + ecalQuote(lit) + "\nres"
+		seqEnv := newEcalEnv(1)
+		atomic.StoreInt64(&c14Ticks, 0)
+		want, werr := seqEnv.run(src)
+		ticks1 := atomic.LoadInt64(&c14Ticks)
+		if werr != nil {
+			continue
+		}
+		for round := 0; round < pick(tier, 150, 1500) && concBad < 3; round++ {
+			env := newEcalEnv(1)
+			ast, perr := env.parse(src)
+			if perr != nil {
+				break
+			}
+			const n = 8
+			atomic.StoreInt64(&c14Ticks, 0)
+			var wg, ready sync.WaitGroup
+			start := make(chan struct{})
+			results := make([]interface{}, n)
+			faults := make([]string, n)
+			for g := 0; g < n; g++ {
+				g := g
+				wg.Add(1)
+				ready.Add(1)
+				go func() {
+					defer wg.Done()
+					defer func() {
+						if rec := recover(); rec != nil {
+							faults[g] = fmt.Sprint(rec)
+						}
+					}()
+					vs := scope.NewScope(scope.GlobalScope)
+					ready.Done()
+					<-start
+					v, err := ast.Runtime.Eval(vs, make(map[string]interface{}), env.erp.NewThreadID())
+					if err != nil {
+						faults[g] = err.Error()
+					}
+					results[g] = v
+				}()
+			}
+			ready.Wait()
+			close(start)
+			wg.Wait()
+			concRounds++
+			r.Case(fmt.Sprintf("concurrent:%s:%d", lit, round), true)
+			total := atomic.LoadInt64(&c14Ticks)
+			for g := 0; g < n; g++ {
+				if faults[g] != "" || fmt.Sprint(results[g]) != fmt.Sprint(want) {
+					concBad++
+					r.Violation("C14 literal evaluated by several threads at once gives another result", fmt.Sprintf("literal %q: thread %d of %d got %v %s, sequentially %v", lit, g+1, n, results[g], faults[g], want), map[string]interface{}{"literal": lit, "threads": n})
+					break
+				}
+			}
+			if total != int64(n)*ticks1 {
+				concBad++
+				r.Violation("C14 expression of a literal evaluated a wrong number of times under concurrent evaluation", fmt.Sprintf("literal %q evaluated by %d threads: the side-effect function ran %d times, expected %d", lit, n, total, int64(n)*ticks1), map[string]interface{}{"literal": lit, "threads": n})
+			}
+		}
+	}
+	r.Set("concurrent_rounds", concRounds)
+
 	bad, ok := validateTrace(r, "Interp_Trace", "Interp_Trace.cfg", trace, 60*time.Minute)
 	if !ok {
 		return
